@@ -15,7 +15,14 @@ RULE = ("every checked entry point of Vector, Matrix, Banded, Tridiagonal, Spars
         "the largest size), minus degenerate tuples outside every property's quantifier (listed per entry as `dontcare`); one executor call per "
         "tuple under catch_unwind, receiver/operands snapshotted before and compared bit-for-bit after; the Gallina guard regenerated from the "
         "source is evaluated on the same tuples; a case = up to %d tuples of one entry; non-trivial = the case contains both accepted and rejected tuples "
-        "(or is a clone-independence case)") % (len(guardtable.ENTRIES), CHUNK)
+        "(or is a clone-independence case). Added by the special-values audit (findings/special-values-specB/C20-table.md), all search-only: "
+        "`payload-zero` = every entry that has a payload (value written, second operand, right-hand side, triplet value: 46 entries) on its full tuple "
+        "domain again with the payload all zeros; `history-receiver` = Index / IndexMut of a Banded after resize to other bandwidths (IndexMut with a frame "
+        "check: code 6), of a Tridiagonal after resize, get/set_row/col of a Matrix after transpose_in_place / delete_row / resize, exhaustive over their "
+        "domains; `quadrature-var` = the variable index of the three trapezium functions; `owned-vs-borrowed-inexact` = every owned / assign / "
+        "scalar-left form against the borrowed form on operands whose sums and products are inexact in f64 (the other builders are small dyadic numbers); "
+        "`same-object` = `&a op &a` against `&a op &a.clone()` (value or panic) for Vector, Matrix (square and not), Banded, Polynomial; `clone-every-mutator` = "
+        "the clone is a bit-for-bit copy when taken and independent under every public mutator of the five Clone types, clone first and original first") % (len(guardtable.ENTRIES), CHUNK)
 TRUSTED = ["Coq 8.16.1 kernel + vm_compute (lia/ZifyBool proofs are kernel-checked terms)",
            "driver/translate.py: regular-expression/recursive-descent translator from `if cond { panic!(..) }` guards to Gallina booleans over Z",
            "driver/guardtable.py: which source atoms (self.rows, vec.size(), ...) denote which integer variable; in particular `self.col_start.len()` of Sparse is "
@@ -39,11 +46,59 @@ MANIFEST = dict(
           "entry_contract_refutes_legacy shows the pre-repair set_col is excluded by the contract. "
           "Tied to the code by executing every entry point on every tuple of its enumeration domain (exhaustive, sizes up to 6) and comparing "
           "panic-vs-value with the regenerated guard evaluated in Coq and with an independent python predicate; the executor also detects writes "
-          "that happen before a panic, mutation of by-reference operands, owned/borrowed disagreement and clone interference."),
+          "that happen before a panic, mutation of by-reference operands, owned/borrowed disagreement and clone interference. The same tuples run again "
+          "with all-zero payloads (a zero fast path must not skip a guard); checked accessors also run on receivers produced by resize / transpose / delete_row "
+          "(the guard must read the state the history left), and the owned, assign and scalar-left forms are compared with the borrowed forms on operands with "
+          "inexact sums and products as well."),
     note=("Guards are extracted by a regular-expression/recursive-descent translator (trusted; a guard it cannot classify is reported as a broken tie). "
           "Operand non-mutation / clone independence are observed at run time over the enumerated domain (a value model satisfies them by construction). Frame properties of the dense-matrix setters are theorems of C03."),
     technique="Coq proof (lia over Z) about guards regenerated from the source by a translator + exhaustive small-scope differential execution",
     design="7 (C20)")
+
+# ---- additions of the special-values audit (findings/special-values-specB/C20-table.md) -------------------------------------------
+# (1) payload value class: the guard.<entry>@zero variants run the SAME tuples with the payload (value written, vector / matrix /
+#     banded second operand, right-hand side, triplet value) all zeros -- a fast path keyed on a zero value must not skip a guard.
+ZERO_KEYS = ["vec_add_ref", "vec_sub_ref", "vec_add_assign", "vec_sub_assign", "vec_dot", "vec_dot_f64",
+             "mat_set_row", "mat_set_col", "mat_multiply", "mat_fill_row", "mat_fill_col", "mat_solve_basic", "mat_solve_lu",
+             "mat_add_ref", "mat_sub_ref", "mat_add_assign_ref", "mat_sub_assign_ref", "mat_mul_ref",
+             "band_fill_band", "band_solve", "band_index_mut", "band_add_ref", "band_sub_ref", "band_add_assign_ref", "band_sub_assign_ref", "band_mul_vec",
+             "tri_with_vectors", "tri_with_vecs", "tri_solve", "tri_index_mut", "tri_mul_vec",
+             "sp_from_triplets", "sp_insert", "sp_multiply", "sp_transpose_multiply", "sp_solve_bicg", "sp_solve_bicgstab", "sp_solve_cg", "sp_solve_qmr",
+             "mesh1_set_nodes_vars", "mesh2_set_nodes_vars", "poly_index_mut", "vec_index_mut", "vec_insert", "mesh1_index_mut", "mesh2_apply"]
+# (2) entry points with a range precondition that the table of driver/guardtable.py does not list, and (3) the listed accessors on a
+#     receiver produced by a HISTORY (resize / transpose_in_place / delete_row) instead of a constructor.  Same record format as
+#     guardtable.ENTRIES; all `native` (executor + python predicate, no regenerated guard: the guards of the accessors are those of the
+#     listed entries, what is new is the state they read).
+def _mat_dims(r, c, h):
+    return (c, r) if h == 0 else ((r - 1, c) if h == 1 else (c + 1, r))
+def _X(**kw):
+    for k, v in (("atoms", {}), ("data", []), ("pre", None), ("dontcare", None), ("native", True), ("guard_of", None), ("after", None), ("nomodel", None)):
+        kw.setdefault(k, v)
+    return kw
+EXTRA = [
+    _X(key="mesh1_trapezium", family="quadrature-var", vars=[("nn", 2, 5), ("nv", 0, 4), ("var", 0, 5)], ok=lambda nn, nv, var: var < nv),
+    _X(key="mesh2_trapezium", family="quadrature-var", vars=[("nx", 2, 3), ("ny", 2, 3), ("nv", 0, 3), ("var", 0, 4)], ok=lambda nx, ny, nv, var: var < nv),
+    _X(key="mesh2_square_trapezium", family="quadrature-var", vars=[("nx", 2, 3), ("ny", 2, 3), ("nv", 0, 3), ("var", 0, 4)], ok=lambda nx, ny, nv, var: var < nv),
+    _X(key="h_band_index", family="history-receiver", vars=[("n", 1, 3), ("a1", 0, 2), ("a2", 0, 2), ("m1", 0, 2), ("m2", 0, 2), ("i", 0, 3), ("j", 0, 3)],
+       ok=lambda n, a1, a2, m1, m2, i, j: j <= i + m2 and i <= j + m1, dontcare=lambda n, a1, a2, m1, m2, i, j: i >= n or j >= n),
+    _X(key="h_band_index_mut", family="history-receiver", vars=[("n", 1, 3), ("a1", 0, 2), ("a2", 0, 2), ("m1", 0, 2), ("m2", 0, 2), ("i", 0, 3), ("j", 0, 3)],
+       ok=lambda n, a1, a2, m1, m2, i, j: j <= i + m2 and i <= j + m1, dontcare=lambda n, a1, a2, m1, m2, i, j: i >= n or j >= n),
+    _X(key="h_tri_index", family="history-receiver", vars=[("n0", 0, 4), ("n", 1, 5), ("i", 0, 6), ("j", 0, 6)],
+       ok=lambda n0, n, i, j: i < n and j < n and abs(i - j) <= 1),
+    _X(key="h_tri_index_mut", family="history-receiver", vars=[("n0", 0, 4), ("n", 1, 5), ("i", 0, 6), ("j", 0, 6)],
+       ok=lambda n0, n, i, j: i < n and j < n and abs(i - j) <= 1),
+    _X(key="h_mat_get_row", family="history-receiver", vars=[("r", 1, 4), ("c", 1, 4), ("h", 0, 2), ("row", 0, 6)],
+       ok=lambda r, c, h, row: row < _mat_dims(r, c, h)[0]),
+    _X(key="h_mat_get_col", family="history-receiver", vars=[("r", 1, 4), ("c", 1, 4), ("h", 0, 2), ("col", 0, 6)],
+       ok=lambda r, c, h, col: col < _mat_dims(r, c, h)[1]),
+    _X(key="h_mat_set_row", family="history-receiver", vars=[("r", 1, 3), ("c", 1, 3), ("h", 0, 2), ("row", 0, 5), ("vl", 0, 5)],
+       ok=lambda r, c, h, row, vl: row < _mat_dims(r, c, h)[0] and vl == _mat_dims(r, c, h)[1]),
+    _X(key="h_mat_set_col", family="history-receiver", vars=[("r", 1, 3), ("c", 1, 3), ("h", 0, 2), ("col", 0, 5), ("vl", 0, 5)],
+       ok=lambda r, c, h, col, vl: col < _mat_dims(r, c, h)[1] and vl == _mat_dims(r, c, h)[0]),
+]
+BYKEY = dict(guardtable.BYKEY)
+BYKEY.update({e["key"]: e for e in EXTRA})
+OWN2 = ("vector", "matrix", "banded", "tridiagonal", "polynomial")
 
 def tuples_of(ent, tier="quick"):
     wide = 2 if (tier == "thorough" and len(ent["vars"]) >= 4) else 0     # thorough: the many-variable entries reach sizes 5..6 too
@@ -53,22 +108,26 @@ def tuples_of(ent, tier="quick"):
     # be rejected on degenerate receivers too (the size guards come first)
     return [t for t in itertools.product(*doms) if not (dc and dc(*t) and ent["ok"](*t))]
 
-def mk(ent, ts, part, with_term=True):
+def mk(ent, ts, part, with_term=True, mode=None):
     k = len(ent["vars"])
-    line = "guard.%s %d %s" % (ent["key"], k, " ".join(str(x) for t in ts for x in t))
+    line = "guard.%s%s %d %s" % (ent["key"], "@" + mode if mode else "", k, " ".join(str(x) for t in ts for x in t))
     term = None
+    if mode:
+        oks = [bool(ent["ok"](*t)) for t in ts]
+        return Case("f64", line, None, meta={"key": ent["key"], "mode": mode, "tuples": [list(t) for t in ts]},
+                    family="payload-" + mode, nontrivial=(any(oks) and not all(oks)), check_class=False)
     if not ent["native"] and with_term:
         apps = "; ".join("g_%s %s" % (ent["key"], " ".join("(%d)%%Z" % x for x in t)) for t in ts)
         term = "concat (map (fun b : bool => [0%%Z; if b then 1%%Z else 0%%Z]) [%s])" % apps
     oks = [bool(ent["ok"](*t)) for t in ts]
     return Case("f64", line, term, meta={"key": ent["key"], "tuples": [list(t) for t in ts]},
-                family=ent["key"].split("_")[0], nontrivial=(any(oks) and not all(oks)), check_class=False)
+                family=ent.get("family") or ent["key"].split("_")[0], nontrivial=(any(oks) and not all(oks)), check_class=False)
 
 _counts = {"tuples": 0, "entries": 0, "rejected": 0, "accepted": 0}
 
 def generate(rng, tier):
     cases = []
-    _counts.update(tuples=0, entries=0, rejected=0, accepted=0)
+    _counts.update(tuples=0, entries=0, rejected=0, accepted=0, extra_tuples=0, zero_payload_tuples=0)
     for ent in guardtable.ENTRIES:
         ts = tuples_of(ent, tier)
         _counts["entries"] += 1
@@ -82,6 +141,27 @@ def generate(rng, tier):
             cases.append(mk(ent, tm[i:i + CHUNK], i // CHUNK))
         if tr:
             cases.append(mk(ent, tr, 0, with_term=False))
+    # the additions: extra entries (exhaustive), zero payloads (every tuple of every entry with a payload), inexact operands
+    for ent in EXTRA:
+        ts = tuples_of(ent, "quick")
+        _counts["extra_tuples"] = _counts.get("extra_tuples", 0) + len(ts)
+        for i in range(0, len(ts), CHUNK):
+            cases.append(mk(ent, ts[i:i + CHUNK], i // CHUNK))
+    for key in ZERO_KEYS:
+        ent = guardtable.BYKEY[key]
+        ts = tuples_of(ent, tier)
+        _counts["zero_payload_tuples"] = _counts.get("zero_payload_tuples", 0) + len(ts)
+        for i in range(0, len(ts), CHUNK):
+            cases.append(mk(ent, ts[i:i + CHUNK], i // CHUNK, mode="zero"))
+    for ty in OWN2:
+        cases.append(Case("f64", "guard.own2_%s %s" % (ty, " ".join(str(n) for n in range(0, 7))), None,
+                          meta={"own": ty, "inexact": True}, family="owned-vs-borrowed-inexact", nontrivial=True))
+    for ty in ("vector", "matrix", "banded", "polynomial"):
+        cases.append(Case("f64", "guard.self_%s %s" % (ty, " ".join(str(n) for n in range(0, 7))), None,
+                          meta={"own": ty, "same_object": True}, family="same-object", nontrivial=True))
+    for ty in ("vector", "matrix", "banded", "tridiagonal", "polynomial"):
+        cases.append(Case("f64", "guard.clone2_%s %s" % (ty, " ".join(str(n) for n in range(0, 7))), None,
+                          meta={"clone": ty, "every_mutator": True}, family="clone-every-mutator", nontrivial=True))
     for ty in ("vector", "matrix", "banded", "tridiagonal", "polynomial"):
         cases.append(Case("f64", "guard.clone_%s %s" % (ty, " ".join(str(n) for n in range(0, 7))), None,
                           meta={"clone": ty}, family="clone", nontrivial=True))
@@ -93,27 +173,32 @@ def generate(rng, tier):
 def case_from_json(j):
     m = j["meta"]
     if "clone" in m:
-        return Case("f64", j["line"], None, meta=m, family="clone")
+        return Case("f64", j["line"], None, meta=m, family="clone")      # (also the clone2 / self / own2 lines: the line carries the kind)
     if "own" in m:
         return Case("f64", j["line"], None, meta=m, family="owned-vs-borrowed")
-    ent = guardtable.BYKEY[m["key"]]
-    return mk(ent, [tuple(t) for t in m["tuples"]], 0)
+    ent = BYKEY[m["key"]]
+    return mk(ent, [tuple(t) for t in m["tuples"]], 0, mode=m.get("mode"))
 
 CODE = {2: "panicked only AFTER writing to the receiver (storage modified before the panic)", 3: "returned, but a by-reference operand was modified",
         4: "returned, but the owned and the borrowed form of the operation disagree",
-        5: "the by-reference form panicked but the consuming (owned) form of the same operation accepted the operands and returned a value"}
+        5: "the by-reference form panicked but the consuming (owned) form of the same operation accepted the operands and returned a value",
+        6: "returned, but the write landed in (or also changed) the storage of another element"}
 
 def oracle(case, items):
     m = case.meta
     if "clone" in m:
         bad = [k for k, it in enumerate(items) if it != ('i', 0)]
-        return ("clone of a %s is not independent of its original (size index %s)" % (m["clone"], bad)) if bad else None
+        if bad and items[bad[0]] == ('i', 7):
+            return "clone of a %s is not a bit-for-bit copy of its original at the moment it is taken (size index %s)" % (m["clone"], bad)
+        return ("clone of a %s is not independent of its original (size index %s)%s" % (m["clone"], bad, ": %r" % (items[bad[0]],) if items[bad[0]][0] != 'i' else "")) if bad else None
     if "own" in m:
         for k, it in enumerate(items):
             if it != ('i', 0):
-                return "%s of size index %d: %s" % (m["own"], k, CODE.get(it[1], "unexpected answer %r" % (it,)) if it[0] == 'i' else "unexpected answer %r" % (it,))
+                if m.get("same_object") and it == ('i', 4):
+                    return "%s of size index %d: a by-reference operator given the SAME object on both sides does not do what it does for an equal, distinct operand" % (m["own"], k)
+                return "%s%s of size index %d: %s" % (m["own"], " (operands with inexact sums/products)" if m.get("inexact") else "", k, CODE.get(it[1], "unexpected answer %r" % (it,)) if it[0] == 'i' else "unexpected answer %r" % (it,))
         return None
-    ent = guardtable.BYKEY[m["key"]]
+    ent = BYKEY[m["key"]]
     if len(items) != len(m["tuples"]):
         return "entry %s: executor answered %d of %d tuples (%r)" % (m["key"], len(items), len(m["tuples"]), items[-2:])
     names = [n for n, _, _ in ent["vars"]]
@@ -121,7 +206,7 @@ def oracle(case, items):
         if it[0] != 'i':
             return "entry %s %s: unexpected answer %r" % (m["key"], dict(zip(names, t)), it)
         c = it[1]
-        args = ", ".join("%s=%d" % p for p in zip(names, t))
+        args = ", ".join("%s=%d" % p for p in zip(names, t)) + (", payload all zeros" if m.get("mode") == "zero" else "")
         if c in CODE:
             return "entry %s (%s): %s" % (m["key"], args, CODE[c])
         ok = bool(ent["ok"](*t))
@@ -133,6 +218,7 @@ def oracle(case, items):
 
 def extra_coverage():
     return {"tuples_executed": _counts["tuples"], "entry_points": _counts["entries"],
+            "extra_entry_tuples_executed": _counts.get("extra_tuples", 0), "zero_payload_tuples_executed": _counts.get("zero_payload_tuples", 0),
             "tuples_that_must_be_rejected": _counts["rejected"], "tuples_that_must_be_accepted": _counts["accepted"]}
 
 # ---- source audit: the value model's assumption "an operand behind `&` cannot be modified" holds for safe Rust without
